@@ -149,6 +149,13 @@ def run(ctx):
         nx = [c for c in cs if c[1].endswith("Iterator>::next") and "p1.column_names" in c[2][0]]
         okp = len(nx) == 1 and any(push[0][0] in bl and nx[0][0] in bl for bl in loops.values())
     maps = [c for c in cs if c[1].endswith("Iterator::map") and re.search(r"iter\(&\*<std::vec::Vec<T, A> as std::ops::Deref>::deref\(&call@\d+:std::vec::Vec::<T>::with_capacity\)\)", c[2][0])]
+    # a projection may also be spelled as a loop over the index list that pushes into a fresh vector
+    idx_iter = r"iter\(&\*<std::vec::Vec<T, A> as std::ops::Deref>::deref\(&call@\d+:std::vec::Vec::<T>::with_capacity\)\)"
+    for c in cs:
+        if c[1].endswith("Iterator>::next") and re.search(idx_iter, c[2][0]) and "Iterator::map" not in c[2][0]:
+            body = [bl for h, bl in loops.items() if c[0] in bl]
+            if body and any(cc[1].endswith("Vec::<T, A>::push") and cc[0] in min(body, key=len) for cc in cs):
+                maps.append(c)
     ctx.check(okp and len(maps) == 2, R, "projection follows the requested order", "indices pushed per requested name; %d maps over the index list" % len(maps),
               "Select::exec does not build the projection by mapping over the requested-column index list for both columns and cells (%d maps, push in request loop: %s)" % (len(maps), okp), f.loc(), fn=f.name)
     # no reversal / sort / dedup of the index list or the rows
@@ -185,7 +192,10 @@ def run(ctx):
             if len(br) == 1:
                 gS = ("discr(call@%d:<std::option::Option<T> as std::ops::Try>::branch)" % br[0][0], ("==", 0))
                 fr = [c for c in symcalls(prog, f, S) if c[1].endswith("from_residual")]
-                ok = some == [gS] and none is None and len(fr) == 1 and inc is not None and inc[0] == "(*p1.next_row_index Add! c:1).0" and inc[1] == [gS]
+                def core(fs):
+                    # facts other than "an inner loop over the row's cells has finished"
+                    return [x for x in (fs or []) if not (re.search(r"Iterator>::next\)$", x[0]) and x[1] == ("==", 0))]
+                ok = core(some) == [gS] and none is None and len(fr) == 1 and inc is not None and inc[0] == "(*p1.next_row_index Add! c:1).0" and core(inc[1]) == [gS]
     ctx.check(ok, R, "Rows::next", "", "Rows::next does not yield rows[next_row_index] exactly while next_row_index < rows.len(), advancing by one", f.loc(), fn=f.name, key=R + "|next")
     f = prog.fn("msi::<internal::table::Rows<'a> as std::iter::Iterator>::size_hint")
     S = Sym(prog, f)
